@@ -77,7 +77,11 @@ def get_dataflow(U, rep):
   def collision(s, d):
     seen['xpos'], seen['xmat'] = d.f['geom_xpos'], d.f['geom_xmat']
     c = Struct('MjxContact', {'dist': symarr('cd', (3,)), 'pos': symarr('cp', (3, 3)), 'frame': symarr('cf', (3, 3, 3)),
-                              'geom1': geom1, 'geom2': geom2})
+                              'geom1': geom1, 'geom2': geom2, 'geom': np.stack([geom1, geom2], axis=1),
+                              # the remaining mjx.Contact fields, so that a consumer reading them is interpreted
+                              'includemargin': symarr('cmg', (3,)), 'friction': symarr('cfr', (3, 5)), 'solref': symarr('csr', (3, 2)),
+                              'solreffriction': symarr('csf', (3, 2)), 'solimp': symarr('csi', (3, 5)), 'dim': np.full((3,), 3),
+                              'efc_address': np.arange(3) * 4})
     return Struct('Data', dict(d.f, contact=c))
   I.contracts[('mujoco.mjx', 'make_data')] = None
   avn_ext = I.extern
